@@ -182,13 +182,20 @@ class TreeSpec(SeqSpec):
         n = rng.choice(sizes if fl == "c03" else [0, 3, 15, 16, 17, 40, 130, 260] + ([1200] if big else []))
         order = rng.choice(["asc", "desc", "saw", "rand"])
         present = []
+        # c03: in a third of the cases only even keys are stored, so that lookups also fall strictly between two stored keys
+        stride = 2 if (fl == "c03" and not coarse and rng.random() < 0.35) else 1
         for k in self.fill(rng, n, order, coarse):
+            k *= stride
             ops.append(["put", k + (rng.randrange(4) if coarse else 0), 0 if is_set else rng.randrange(1, 10 ** 6)])
             present.append(k)
-        K = max(8, (n + 8) * (4 if coarse else 1))
+        K = max(8, (n + 8) * (4 if coarse else 1)) * stride
         nops = rng.choice([10, 40, 120] if tier == "quick" else [40, 150, 500])
         nit = 0
         if fl == "c03":
+            ks0 = sorted(present)
+            for k in (ks0[-1:] + ks0[-2:-1] + ks0[:1] + ks0[14:15] + ks0[15:16]):
+                for d in (-1, 0, 1):
+                    ops.append(["getcost", max(0, k + d)])
             # targeted drains: delete one leaf's worth, the leftmost/rightmost path, every other key, everything
             style = rng.choice(["left", "right", "middle", "everyother", "all", "random", "refill"])
             ks = sorted(present)
@@ -259,6 +266,20 @@ class TreeSpec(SeqSpec):
                     ops.append([c, self.rbound(rng, K), self.rbound(rng, K)])
                 else:
                     ops.append([c])
+        if fl == "c02" and nit > 0 and rng.random() < 0.3:
+            # the tree is EMPTIED between two Next calls while iterators are parked on keys: every one of them must
+            # report exhaustion (and keep doing so); then keys come back and the iterators are stepped again
+            victims = sorted(set(present), reverse=rng.random() < 0.5)
+            for k in victims:
+                for d in (range(4) if coarse else (0,)):
+                    ops.append(["del", k + d])
+            ops.append(["len"])
+            for j in range(nit):
+                for _ in range(2):
+                    ops.append(["iternext", j])
+            if rng.random() < 0.5:
+                for _ in range(rng.choice([1, 3, 20])):
+                    ops.append(["put", rng.randrange(K), 0 if is_set else rng.randrange(1, 10 ** 6)])
         if fl == "c02":
             # drain every iterator at the end (sticky end is observed by extra calls)
             for j in range(nit):
@@ -359,6 +380,9 @@ class TreeSpec(SeqSpec):
                 per = (BRANCH - 1) * (2 if less_constructed else 1)
                 if ob[0] == "int" and ob[1] > per * max(1, height):
                     fails.append(("lookup-cost", "op %d: a lookup made %d comparator calls; bound is %d per level x %d levels" % (i, ob[1], per, height)))
+                # per level (the comparator's arguments are attributed to the level their stored key lives on)
+                if ob[0] == "int" and len(ob) > 3 and ob[3] == 0 and ob[2] > per:
+                    fails.append(("lookup-cost-per-level", "op %d: the lookup of %r made %d comparator calls against the keys of ONE level; the bound is %d" % (i, op[1], ob[2], per)))
             if i in raw:
                 _, err, height, nkeys, minfill, maxfill, nodes = raw[i]
                 if err:
